@@ -54,4 +54,32 @@ Spec == Init /\ [][Next]_vars
 Correct == out # -1 => out = Outermost
 NeverOtherDevice == (out > 0 /\ ~allowX) => Dev(out) = Dev(start)
 NeverCompressedUnasked == (out > 0 /\ ~allowC) => chain[out].mf = "plain"
+
+(* ---- behaviour beyond the listed invariants (growth) ---- *)
+FairSpec == Spec /\ WF_vars(Next)
+(* the walk ends on every chain (C15 "returns ... or nothing"; also the upward half of C16) *)
+Terminates == <>(out # -1)
+(* each step either answers or climbs exactly one level; the candidate only moves to the level just left;
+   the answer is the candidate; scenario variables are never written *)
+StepShape == [][ /\ out = -1
+                 /\ \/ (out' # -1 /\ out' = last /\ cur' = cur /\ last' = last)
+                    \/ (out' = -1 /\ cur' = cur - 1 /\ last' \in {last, cur})
+                 /\ UNCHANGED <<chain, cut, start, allowC, allowX>> ]_vars
+(* the candidate is always a considered, uncovered level on the start's side of every boundary crossed,
+   and every level between it and the start is uncovered: an inductive strengthening of Correct *)
+CandidateSound ==
+    last # 0 => /\ last \in (cur + 1)..start
+                /\ Considered(last) /\ ~Covers(last)
+                /\ (~allowX => Dev(last) = Dev(start))
+                /\ \A k \in last..start : ~(Considered(k) /\ Covers(k))
+(* nothing ("0") is answered only if no considered level is reachable at all *)
+NothingMeansNothing ==
+    out = 0 => ~\E l \in 1..start :
+                   /\ Considered(l)
+                   /\ \A k \in l..start : ~(Considered(k) /\ Covers(k)) /\ (allowX \/ Dev(k) = Dev(start))
+(* discovery is insensitive to anything below the start directory *)
+BelowStartIrrelevant ==
+    out # -1 => \A c2 \in [1..N -> [mf : MfKinds, ign : IgnKinds]] :
+                    (\A l \in 1..start : c2[l] = chain[l])
+                        => OutermostOf(c2, cut, start, allowC, allowX) = out
 =============================================================================
